@@ -118,7 +118,7 @@ CHECKS = {
     },
     "C12": {
         "level": "fault_enumeration",
-        "tests": [{"name": "TestC12Small", "quick": 40, "thorough": 2560, "min_per_shard": 20}, {"name": "TestC12Blocks", "quick": 3, "thorough": 192, "min_per_shard": 3},
+        "tests": [{"name": "TestC12Small", "quick": 28, "thorough": 2560, "min_per_shard": 20}, {"name": "TestC12Blocks", "quick": 3, "thorough": 192, "min_per_shard": 3},
                   {"name": "TestC12Wide", "quick": 12, "thorough": 480, "min_per_shard": 4, "max_shards": 8}, {"name": "TestC12WideB", "quick": 12, "thorough": 480, "min_per_shard": 4, "max_shards": 8},
                   {"name": "TestC12Giant", "quick": 2, "thorough": 32, "min_per_shard": 2, "max_shards": 4}],
         "assumptions": ["the injected writer is a conforming io.Writer (returns n < len(p) together with a non-nil error, fails forever afterwards)",
@@ -129,7 +129,8 @@ CHECKS = {
         "level": "exploration",
         "tests": [{"name": "TestC14", "quick": 600, "thorough": 19200}, {"name": "TestC14", "quick": None, "thorough": 3200, "race": True, "max_shards": 8},
                   {"name": "TestC14Long", "quick": 16, "thorough": 960, "min_per_shard": 8},
-                  {"name": "TestC14Vocab64k", "quick": 0}, {"name": "TestC14Vocab512k", "quick": 0}],
+                  {"name": "TestC14Vocab64k", "quick": 0}, {"name": "TestC14Vocab512k", "quick": 0},
+                  {"name": "TestC14Process", "quick": 6, "thorough": 96, "min_per_shard": 6}],
         "assumptions": [COMMON_ASSUMPTIONS[0], "whether a build really started from a recycled pool object is sampled through the verif hook just before the build (sync.Pool is per-P, so this is evidence, not control)",
                         "concurrent builders are scheduled by the Go runtime; interleavings are sampled"],
     },
